@@ -1,5 +1,6 @@
 import PqlModel.Props.C02
 import PqlModel.Props.C02Split
+import PqlModel.Props.C05SplitRefines
 #print axioms Pql.C02.C02_canAttachSort_table
 #print axioms Pql.C02.C02_top_eq_sort_take
 #print axioms Pql.C02.C02_spec_top
